@@ -618,7 +618,28 @@ class CallMixin:
         (v,) = args
         if isinstance(v, K):
             return K(float(v.v))
-        return Sym(f"float({self.ident(v)})", frozenset({"float"}), "value")
+        return Sym(f"float({self.ident(v)})", frozenset({"float"}), "derived")
+
+    def bi_id(self, args, kwargs):
+        # identity of an object: an uninterpreted integer per object
+        return I(self.smt.int(f"id!{self.ident(args[0])}"))
+
+    def bi_format(self, args, kwargs):
+        # format(value, spec): uninterpreted pure string function of the value (a DERIVED datum: it is not str(value))
+        v = args[0]
+        spec = self.ident(args[1]) if len(args) > 1 else ""
+        if isinstance(v, K) and len(args) > 1 and isinstance(args[1], (K, S)):
+            try:
+                return lit(format(v.v, self.const_of(args[1]) if isinstance(args[1], S) else args[1].v))
+            except Exception:
+                pass
+        return S((Dyn(Sym(f"format({self.ident(v)},{spec})", frozenset({"str"}), "derived"), "raw"),))
+
+    def bi_round(self, args, kwargs):
+        v = args[0]
+        if all(isinstance(a, K) for a in args):
+            return K(round(*[a.v for a in args]))
+        return Sym(f"round({','.join(self.ident(a) for a in args)})", frozenset({"float", "int"}), "derived")
 
     def bi_abs(self, args, kwargs):
         (v,) = args
